@@ -12,6 +12,12 @@ impl File {
     pub fn try_lock_exclusive(&self) -> (r: Result<(), io::Error>)
         ensures r is Ok ==> ev_flocked(self.fid())
     { unimplemented!() }
+    /// fs2::FileExt::unlock on the handle the owner itself locked
+    #[verifier::external_body]
+    pub fn unlock_own(&self) -> (r: Result<(), io::Error>)
+        opens_invariants none
+        no_unwind
+    { unimplemented!() }
 }
 /// `.map_err(|e| io::Error::new(kind, msg))` on the lock result (message dropped, E3)
 pub fn lock_err(r: Result<(), io::Error>) -> (o: Result<(), io::Error>)
